@@ -651,6 +651,11 @@ def run_threads(inp):
 
 # ---------------------------------------------------------------- end-to-end over the REAL asyncio stream transport
 
+class _OpenFakeSocket(FakeSocket):
+    def fileno(self):
+        return 99       # "open": address lookups through the typed attributes are allowed
+
+
 class KernelTransport:
     """Stands for asyncio's selector socket transport + the kernel: bytes sent by the peer sit in [kbuf]; a read event
     (level-triggered: one per loop iteration while bytes remain) does what _SelectorSocketTransport._read_ready__get_buffer
@@ -665,7 +670,7 @@ class KernelTransport:
         self.paused = False
         self.scheduled = False
         self.proto = None
-        self._sock = FakeSocket()
+        self._sock = _OpenFakeSocket()
 
     # -- asyncio.Transport surface used by the adapter / protocol
     def get_extra_info(self, name, default=None):
